@@ -680,10 +680,17 @@ fn exec_inner(op: &str, a: &Value, st: &mut State) -> Value {
             }
         }
         "rendert" => {
-            // render of a date-time obtained from a timestamp and an offset
+            // render of a date-time obtained from a timestamp (or a total count of nanoseconds) and an offset
+            let off = geti(a, "off") as i32;
+            if let Some(n) = a.get("N") {
+                let n = w_to_i128(n);
+                return match render_type(a, off) {
+                    Ok(ty) => DateTime::from_total_nanoseconds_and_local(n, ty).map(|x| ok(json!({"text": bytes(x.to_string().as_bytes()), "dt": dt_json(&x)}))).unwrap_or_else(err),
+                    Err(e) => err(e),
+                };
+            }
             let t = w_to_i64(getv(a, "t"));
             let ns = geti(a, "ns") as u32;
-            let off = geti(a, "off") as i32;
             match render_type(a, off) {
                 Ok(ty) => DateTime::from_timespec_and_local(t, ns, ty).map(|x| ok(json!({"text": bytes(x.to_string().as_bytes()), "dt": dt_json(&x)}))).unwrap_or_else(err),
                 Err(e) => err(e),
